@@ -96,7 +96,7 @@ def eval_C15(item):
         if sid in st.mobs['structs'] and sorted(st.iobs['structs'][sid]['own']) != sorted(st.mobs['structs'][sid]['own']):
             res['corr'].append('structure %d own pixels differ from the model' % sid)
     variants = [('repeat', {}), ('verbose', {'verbose': True})]
-    for lay in ('F', 'strided', 'readonly'):
+    for lay in ('F', 'strided', 'readonly', 'bigendian'):
         variants.append(('layout=' + lay, {'layout': lay}))
     for dt in gen.INT_DTYPES + ['float32', 'float64']:
         if dt != case['dtype'] and holds_exactly(case, dt):
